@@ -260,7 +260,7 @@ Proof.
   induction rem as [|r IH]; intros s m H; simpl.
   - destruct (get_m s m); auto. apply UP7_finish_m; auto.
   - destruct (get_m s m) as [x|]; auto.
-    destruct (m_bad x).
+    destruct (nth (m_idx x) (m_bad x) false).
     + apply IH. exact H.
     + unfold try_start. destruct (closed s).
       * apply UP7_finish_m; auto.
